@@ -109,6 +109,12 @@ impl Sink {
         }
         l.push(v);
     }
+    /// add a tag to the most recently pushed violation
+    pub fn retag_last(&self, t: &str) {
+        if let Some(v) = self.v.borrow_mut().last_mut() {
+            v.tags.push(t.into());
+        }
+    }
     pub fn take(&self) -> Vec<Violation> {
         std::mem::take(&mut *self.v.borrow_mut())
     }
